@@ -4,7 +4,7 @@ LEVEL = "other"
 MANIFEST = {
     "engine": "symrun",
     "category": "other",
-    "text": "Symbolic execution of the real Krige code (Simple, Ordinary, Universal, ExtDrift, Detrended and the general Krige class with unbiased on/off, functional + external drifts) with a GENERIC model class (uninterpreted normalised correlation => every model class), symbolic variance, length scale, nugget, anisotropy ratios, rotation angles, conditioning and target coordinates, data values, scalar / per-point measurement errors, external drift values, mean / trend parameters, uninterpreted user drift functions and an uninterpreted (generic) or LogNormal normalizer. Postconditions written from the textbook kriging system: (1) _get_krige_mat hands to the inverse routine exactly [[C + diag(err), 1, F^T, E^T], [1, 0..], [F, 0..], [E, 0..]] with C_ab = model covariance of the distance of the isometrised positions, err = model nugget (cond_err='nugget', also in exact mode, where the diagonal is the sill) or the explicit errors, layout cond | unbiased | functional | external, and stores what the routine returns; pseudo_inv / pseudo_inv_type select pinv, pinvh, a user callable or the plain inverse; (2) _get_krige_vecs builds (covariance | nugget-aware covariance in exact mode, 1, f_i(ORIGINAL target coordinates) via anisometrize(isometrize(x)) = x, external drift values) for the requested chunk only, and zeros instead of covariances for kriging the mean; (3) _krige_cond = normalize(value - trend(x)) - mean(x), zero padded; (4) Krige.__call__ passes exactly these to the compiled kernels (replaced by their C15 postconditions), so field_raw = cond^T K k and krige_var = max(sill - k^T K k, 0) >= 0 with K the result of the inverse routine; return_var=False, chunk_size=1, structured vs. unstructured on the expanded grid, reversed or single targets give identical values; post-processing = trend + denormalize(mean + raw); get_mean / only_mean = kriging the mean; (5) with the ASSUMED contract of the inverse routine K.A = I, A.K = I: w = K k solves A w = k and is the only solution, estimate = cond^T w, variance = max(sill - k^T w, 0); the estimate is linear in the data; for unbiased variants sum w = 1 and sum_b w_b f_i(x_b) = f_i(x0) (also external drifts), so data equal to a constant plus a combination of the drift functions are reproduced exactly; swapping two conditioning points permutes A, k, cond and the weights consistently and leaves estimate and variance unchanged; (7) after re-assigning krige.model, and after re-assigning normalizer / mean / trend following a first call (with and without set_condition()), the results equal those of a fresh object with the new setting (F13, repaired in 10bf78d); (8) set_condition with fit_normalizer / fit_variogram (ghost optimisers that assign arbitrary in-bounds normalizer and model parameters, anisotropy included): the fits receive value - trend, resp. the normalised detrended zero-mean data at cond_pos (directional along model.main_axes() for an anisotropic start model) and sill = data variance, and the post-state is the kriging set-up of the FINAL model (_krige_pos = model.isometrize(cond_pos), textbook matrix, results of a fresh object). Added after the seeding rounds: callable mean on a rotated anisotropic model; get_mean with a user mean on an unbiased system; in-place model edit followed by re-assignment of the same object; the external drift at the targets of a structured mesh in every memory layout (F30 repaired).",
+    "text": "Symbolic execution of the real Krige code (Simple, Ordinary, Universal, ExtDrift, Detrended and the general Krige class with unbiased on/off, functional + external drifts) with a GENERIC model class (uninterpreted normalised correlation => every model class), symbolic variance, length scale, nugget, anisotropy ratios, rotation angles, conditioning and target coordinates, data values, scalar / per-point measurement errors, external drift values, mean / trend parameters, uninterpreted user drift functions and an uninterpreted (generic) or LogNormal normalizer. Postconditions written from the textbook kriging system: (1) _get_krige_mat hands to the inverse routine exactly [[C + diag(err), 1, F^T, E^T], [1, 0..], [F, 0..], [E, 0..]] with C_ab = model covariance of the distance of the isometrised positions, err = model nugget (cond_err='nugget', also in exact mode, where the diagonal is the sill) or the explicit errors, layout cond | unbiased | functional | external, and stores what the routine returns; pseudo_inv / pseudo_inv_type select pinv, pinvh, a user callable or the plain inverse; (2) _get_krige_vecs builds (covariance | nugget-aware covariance in exact mode, 1, f_i(ORIGINAL target coordinates) via anisometrize(isometrize(x)) = x, external drift values) for the requested chunk only, and zeros instead of covariances for kriging the mean; (3) _krige_cond = normalize(value - trend(x)) - mean(x), zero padded; (4) Krige.__call__ passes exactly these to the compiled kernels (replaced by their C15 postconditions), so field_raw = cond^T K k and krige_var = max(sill - k^T K k, 0) >= 0 with K the result of the inverse routine; return_var=False, chunk_size=1, structured vs. unstructured on the expanded grid, reversed or single targets give identical values; post-processing = trend + denormalize(mean + raw); get_mean / only_mean = kriging the mean; (5) with the ASSUMED contract of the inverse routine K.A = I, A.K = I: w = K k solves A w = k and is the only solution, estimate = cond^T w, variance = max(sill - k^T w, 0); the estimate is linear in the data; for unbiased variants sum w = 1 and sum_b w_b f_i(x_b) = f_i(x0) (also external drifts), so data equal to a constant plus a combination of the drift functions are reproduced exactly; swapping two conditioning points permutes A, k, cond and the weights consistently and leaves estimate and variance unchanged; (7) after re-assigning krige.model, and after re-assigning normalizer / mean / trend following a first call (with and without set_condition()), the results equal those of a fresh object with the new setting (F13, repaired in 10bf78d); (8) set_condition with fit_normalizer / fit_variogram (ghost optimisers that assign arbitrary in-bounds normalizer and model parameters, anisotropy included): the fits receive value - trend, resp. the normalised detrended zero-mean data at cond_pos (directional along model.main_axes() for an anisotropic start model) and sill = data variance, and the post-state is the kriging set-up of the FINAL model (_krige_pos = model.isometrize(cond_pos), textbook matrix, results of a fresh object). Added after the seeding rounds: callable mean on a rotated anisotropic model; get_mean with a user mean on an unbiased system; in-place model edit followed by re-assignment of the same object; the external drift at the targets of a structured mesh in every memory layout (F30 repaired). Round 7: every chunk_size (dividing, not dividing, exceeding the number of targets) gives the unchunked field and variance.",
     "level_note": "category 'other', not 'proof': every obligation is stated for ALL values (model parameters, coordinates, data, errors, drift values are unbounded symbolic reals; the correlation function, user drift functions and normalizer are uninterpreted), but shapes are ENUMERATED: n <= 3 conditioning points, t <= 2 targets, dim 1-2 (dim 3 in the thorough tier), <= 2 functional and <= 1 external drift, grids of 2 resp. 2 x 1 points -- all such obligations are reported BOUNDED (bounded_ok), none is counted as proved; the sums inside the compiled kernels are proved for all sizes in C15 and enter as postconditions; the linear-algebra consequences (direct solution, uniqueness, unbiasedness, permutation) are proved symbolically per enumerated system size 1..6 (size-generic Lean versions: lean/GsKrige.lean, thorough tier, hand-written glue T7). Assumed, logged in the evidence: T5 scipy.linalg.inv/pinv/pinvh return the two-sided inverse of a non-singular matrix (natively checked on every sampled instance; accuracy of the routines is residue); cor(0) = 1 for the diagonal = var + error form (T8/C03); the model's own isometrize / covariance are used on the specification side (their correctness is C12 / C03), anisometrize(isometrize(x)) = x is re-proved here for the real matrices. Exact mode: the coincidence window |d| <= 1e-8 of cov_nugget is modelled as written; shapes with more than 2 (conditioning point, target) pairs are stated for targets outside the window of every conditioning point (the case target = conditioning point is C06), the full case split is explored for 1-2 pairs; conditioning points are required pairwise distinct in exact mode (singular textbook system otherwise). Floats as reals (T1): numerically near-singular systems, pinv cut-offs and rounding are not modelled. NOT covered: lat-lon and temporal models (isometrize is the model's own; the kriging code has no separate branch), what the optimisers behind fit_normalizer / fit_variogram return (ghosts with the assumed contract 'any in-bounds parameters'; vario_estimate stubbed inside these contracts), order-of-points invariance beyond one transposition per size (the textbook entries are index-symmetric).",
     "technique": "contract-based deductive verification: symbolic execution of the real Python methods against sidecar postconditions from the property statement and the textbook kriging system, contract stubs for the matrix inverse and the compiled kernels, VCs discharged by ring normal form / z3 / cvc5 with lemma chains (BY clauses, generalisation of matrix entries) and instantiated axiom hints; failed obligations replayed natively",
 }
